@@ -140,6 +140,16 @@ def scripted(plan):
                         rec["sends"].append(type(e).__name__)
                 elif st[0] == "raise":
                     raise RuntimeError("app")
+                elif st[0] == "raise-cancelled":
+                    # the application lets a CancelledError of its own making escape (a helper task it awaited was cancelled):
+                    # to the server it is an application that ended without completing its response
+                    import sniffio
+
+                    if sniffio.current_async_library() == "trio":
+                        raise RuntimeError("app")       # trio's Cancelled cannot be made by hand
+                    import asyncio
+
+                    raise asyncio.CancelledError()
                 elif st[0] == "raise-nested":
                     # the failure comes out of a child task of the application's own task group (anyio style): the server
                     # sees an exception group
@@ -380,7 +390,7 @@ def session_case(seed):
     # likewise an application that answers on the very instant at which the reader resumes over input that is already
     # buffered (a pipelined request, surplus bytes, the client's EOF) races with the reader, and each runtime's scheduler
     # settles that race its own way: every application send (and failure, and return) gets its own instant too
-    plan = [[x for st in steps for x in ((("sleep", 0.0071), st) if st[0] in ("send", "send!", "raise", "raise-nested", "return") else (st,))]
+    plan = [[x for st in steps for x in ((("sleep", 0.0071), st) if st[0] in ("send", "send!", "raise", "raise-nested", "raise-cancelled", "return") else (st,))]
             for steps in plan]
     T = rng.choice([5.0, 5.0, 1.0])
     out = {}
